@@ -168,6 +168,14 @@ class Taint(Domain):
                 return self._promote(x2, y, node, it) if x is a else self._promote(y, x2, node, it)
         W = a[2] | b[2]
         S = a[1] | b[1]
+        # true division with an integer *array* on either side is float64 whatever the other operand is
+        # (a float32 array, a Python number, a parameter of unknown nature)
+        if isinstance(getattr(node, "op", None), ast.Div):
+            for x in (a, b):
+                ints = [l for l in x[1] if "integer array (int64)" in l]
+                if ints and not x[2]:
+                    W = W | {self.site(node, it, "true division by / of an int64 array (" + sorted(ints)[0][:80] + "): the quotient is float64")}
+                    break
         if (a[1] and not a[2] and b[0] == ARR and not b[1]) or (b[1] and not b[2] and a[0] == ARR and not a[1]):
             strong = a[1] if a[1] else b[1]
             lab = self.site(node, it, "promotion of a strong 64-bit scalar/integer array (" + sorted(strong)[0][:90] + ") combined with an input-typed array")
@@ -320,7 +328,8 @@ class Taint(Domain):
             d = BOT
             for a in args:
                 d = jd(d, it.datum(a))
-            return Leaf((ARR if d[0] == ARR else d[0], d[1] | frozenset([self.site(node, it, "index / count result (int64)")]), d[2]))
+            what = "integer array (int64) from arange" if last == "arange" else "index / count result (int64)"
+            return Leaf((ARR if d[0] == ARR else d[0], d[1] | frozenset([self.site(node, it, what)]), d[2]))
         if last in ("randn", "gamma") and not isinstance(args[0] if args else None, Mod):
             # backend draws: sanitised by their **context
             if "**" in kwargs or self._dtype_kind(kwargs.get("dtype")) == "ctx":
